@@ -221,6 +221,18 @@ class GraphBuilder:
 
         return self
 
+    def _remove_model_seed_nodes(self) -> GraphBuilder:
+        """Detaches seed nodes that :meth:`._add_model_seed_nodes` added for an earlier model."""
+        nodes, _ = self._all_nodes_and_vars()
+
+        for node in nodes:
+            seed = node.kwinputs.get("seed", None)
+            if seed is not None and seed.name == f"_model_{node.name}_seed":
+                kwinputs = {k: v for k, v in node.kwinputs.items() if k != "seed"}
+                node.set_inputs(*node.inputs, **kwinputs)
+
+        return self
+
     def _all_nodes_and_vars(self) -> tuple[list[Node], list[Var]]:
         """
         Returns all nodes and variables that were explicitly or implicitly
@@ -450,6 +462,9 @@ class GraphBuilder:
         >>> gb.vars
         []
         """
+        # nodes popped or copied out of a model still carry that model's seed nodes
+        self._remove_model_seed_nodes()
+
         nodes, _vars = self._all_nodes_and_vars()
 
         if not nodes:
